@@ -385,7 +385,11 @@ impl Prop for Stream {
             let doomed = is_frame_error(&err) && {
                 let tail_doomed = |d: &[u8]| {
                     let s = rl::scan_close(d);
-                    let end = s.frames.last().map(|(at, f)| at + rl::encode(f.ctrl, f.dst, f.src, &f.payload).len()).unwrap_or(0);
+                    let end = s
+                        .frames
+                        .last()
+                        .map(|(at, f)| at + rl::encode(f.ctrl, f.dst, f.src, &f.payload).len())
+                        .unwrap_or(0);
                     s.error_at.is_none() && rl::doomed_prefix(&d[end.min(d.len())..])
                 };
                 if case.datagram {
@@ -983,8 +987,16 @@ impl Prop for Sessions {
                 Some(e) => {
                     let all: Vec<u8> = ch.iter().flatten().copied().collect();
                     let sc = rl::scan_close(&all);
-                    let end = sc.frames.last().map(|(at, f)| at + rl::encode(f.ctrl, f.dst, f.src, &f.payload).len()).unwrap_or(0);
-                    let doomed = !case.discard && !case.datagram && is_frame_error(e) && sc.error_at.is_none() && rl::doomed_prefix(&all[end.min(all.len())..]);
+                    let end = sc
+                        .frames
+                        .last()
+                        .map(|(at, f)| at + rl::encode(f.ctrl, f.dst, f.src, &f.payload).len())
+                        .unwrap_or(0);
+                    let doomed = !case.discard
+                        && !case.datagram
+                        && is_frame_error(e)
+                        && sc.error_at.is_none()
+                        && rl::doomed_prefix(&all[end.min(all.len())..]);
                     if doomed {
                         out.label("ended_at_error");
                         dirty = true;
